@@ -187,6 +187,7 @@ func drawCase(rt *rapid.T) Case {
 	}
 	if sinks {
 		c.Workers = rapid.OneOf(rapid.IntRange(2, 4), rapid.IntRange(2, 16)).Draw(rt, "workers")
+		c.Restart = rapid.IntRange(0, 3).Draw(rt, "restart") == 0
 	}
 	if rapid.IntRange(0, 2).Draw(rt, "monitor") == 0 {
 		c.Monitor = Monitor{On: true, Hold: rapid.SampledFrom([]int{0, 1, 20, 50}).Draw(rt, "mhold"), Gap: rapid.SampledFrom([]int{0, 1, 20, 100}).Draw(rt, "mgap")}
